@@ -200,6 +200,8 @@ struct Tables {
     RunCtx& cx;
     CDNS::CdnsBlock blk;
     TableModel m[9];
+    std::unique_ptr<CDNS::CdnsBlock> snap;   // an earlier state of the block (copy) that is later assigned back over it
+    TableModel snapm[9];
     static const char* name(int t) { return ref::TABLE_NAME[t]; }
     size_t real_size(int t) {
         switch (t) { case 0: return blk.m_ip_address.size(); case 1: return blk.m_classtype.size(); case 2: return blk.m_name_rdata.size(); case 3: return blk.m_qr_sig.size();
@@ -242,6 +244,26 @@ void run_tables(RunCtx& cx) {
             for (auto& m : T.m) m.clear();
             for (int j = 0; j < 9; j++) if (T.real_size(j) != 0) cx.violation("C11", "C11/I07/clear-left-entries", std::string(ref::TABLE_NAME[j]) + " not empty after clear()");
             cx.ctr->add("probe.block_cleared");
+            continue;
+        }
+        if (action == 19 && !growth) {
+            // keep a copy of the block as it is now ...
+            cx.log.ev("SNAPSHOT");
+            if (cx.describe) cx.description += "snapshot; ";
+            T.snap.reset(new CDNS::CdnsBlock(T.blk));
+            for (int j = 0; j < 9; j++) T.snapm[j] = T.m[j];
+            continue;
+        }
+        if (action == 18 && !growth) {
+            // ... and assign it (or a fresh block) over the block, which meanwhile may hold more, fewer or other entries: the tables are
+            // those of the assigned block and nothing of the previous content is visible
+            cx.log.ev(T.snap ? "ASSIGN-SNAPSHOT" : "ASSIGN-FRESH");
+            if (cx.describe) cx.description += T.snap ? "assign the snapshot over the block; " : "assign a fresh block over the block; ";
+            if (T.snap) { T.blk = *T.snap; for (int j = 0; j < 9; j++) T.m[j] = T.snapm[j]; }
+            else { CDNS::BlockParameters bp; CDNS::CdnsBlock fresh(bp, 0); T.blk = fresh; for (auto& m : T.m) m.clear(); }
+            for (int j = 0; j < 9; j++)
+                if (T.real_size(j) != T.m[j].items.size()) cx.violation("C11", std::string("C11/I07/table-size-after-assignment/") + ref::TABLE_NAME[j], std::string(ref::TABLE_NAME[j]) + " has " + std::to_string(T.real_size(j)) + " entries after the assignment, the assigned block had " + std::to_string(T.m[j].items.size()));
+            cx.ctr->add("probe.block_assigned_over");
             continue;
         }
         if (action <= 4 && !T.m[t].items.empty()) {
@@ -843,10 +865,150 @@ void run_preamble_objects(RunCtx& cx) {
     F.log = nullptr;
 }
 
+// ---------------------------------------------------------------------------------------------------------------
+// C17 on blocks the application builds itself: QueryResponse / MalformedMessage / AddressEventCount structures are added
+// through the non-generic overloads (they carry absolute times in `time_offset`; the block keeps its earliest time and
+// turns them into offsets when it is written), in every arrival order of timed and untimed records; the block is written
+// with write_block(block) and read by the independent reader and by the library's reader.
+void run_direct_blocks(RunCtx& cx) {
+    Rng r(mix_str(cx.seed, "direct-blocks"));
+    gen::Swarm sw = gen::swarm(cx.seed, gen::P_TIME);
+    sw.sets.resize(1);
+    sw.sets[0].storage_parameters.max_block_items = (uint64_t)r.pick(std::vector<uint64_t>{1, 2, 3, 10000});
+    std::vector<CDNS::BlockParameters> sets = sw.sets;
+    const uint64_t tps = sets[0].storage_parameters.ticks_per_second;
+    const uint64_t maxi = sets[0].storage_parameters.max_block_items;
+    simfs::FS& F = simfs::fs();
+    F.reset();
+    F.log = &cx.log;
+    unsigned n = (unsigned)r.range(1, 10);
+    cx.n_ops = n;
+    cx.tag("direct-block");
+    CDNS::CdnsBlock blk(sets[0], 0);
+    std::vector<ref::MRec> want_qr, want_mm;
+    std::map<std::string, uint64_t> want_aec;
+    bool have_time = false;
+    CDNS::Timestamp earliest;
+    // times cluster around a base so that later records are often earlier than the first one
+    gen::RecGen g0(sw, r.next());
+    CDNS::Timestamp base = g0.ts(tps);
+    auto near_base = [&](Rng& q) {
+        CDNS::Timestamp t = base;
+        switch (q.below(5)) {
+            case 0: break;
+            case 1: if (t.m_ticks > 0) t.m_ticks -= 1 + q.below(t.m_ticks); else if (t.m_secs > 0) { t.m_secs--; t.m_ticks = tps - 1; } break;
+            case 2: if (t.m_secs > 0) t.m_secs -= 1 + q.below(t.m_secs < 100 ? t.m_secs : 100); break;
+            case 3: if (t.m_ticks + 1 < tps) t.m_ticks++; break;
+            default: { gen::RecGen g(sw, q.next()); t = g.ts(tps); break; }
+        }
+        return t;
+    };
+    auto note_time = [&](const CDNS::Timestamp& t) {
+        if (!have_time || t.m_secs < earliest.m_secs || (t.m_secs == earliest.m_secs && t.m_ticks < earliest.m_ticks)) earliest = t;
+        have_time = true;
+    };
+    for (unsigned k = 0; k < n; k++) {
+        Rng q(mix64(cx.seed, 700 + k));
+        if (!cx.kept(k)) continue;
+        bool timed = !q.chance(1, 3);
+        CDNS::Timestamp t = near_base(q);
+        bool full_before_model;
+        bool ret;
+        std::string what;
+        switch (q.below(4)) {
+            case 0: case 1: {
+                CDNS::QueryResponse x;
+                CDNS::GenericQueryResponse gq;
+                if (timed) { x.time_offset = t; gq.ts = t; }
+                x.client_port = (uint16_t)(1000 + k); gq.client_port = x.client_port;
+                if (q.coin()) { x.transaction_id = (uint16_t)q.below(65536); gq.transaction_id = x.transaction_id; }
+                ret = blk.add_question_response_record(x);
+                want_qr.push_back(model::to_mrec(gq));
+                if (timed) note_time(t);
+                what = std::string("add QueryResponse ") + (timed ? model::ts_str(t) : "untimed");
+                break;
+            }
+            case 2: {
+                CDNS::MalformedMessage x;
+                CDNS::GenericMalformedMessage gm;
+                if (timed) { x.time_offset = t; gm.ts = t; }
+                x.client_port = (uint16_t)(2000 + k); gm.client_port = x.client_port;
+                ret = blk.add_malformed_message(x);
+                want_mm.push_back(model::to_mrec(gm));
+                if (timed) note_time(t);
+                what = std::string("add MalformedMessage ") + (timed ? model::ts_str(t) : "untimed");
+                break;
+            }
+            default: {
+                CDNS::AddressEventCount x;
+                CDNS::GenericAddressEventCount ga;
+                std::string ip = q.coin() ? std::string("\x0a\x00\x00\x01", 4) : std::string("\x0a\x00\x00\x02", 4);
+                x.ae_type = CDNS::AddressEventTypeValues::tcp_reset; ga.ae_type = x.ae_type;
+                x.ae_address_index = blk.add_ip_address(ip); ga.ip_address = ip;
+                ret = blk.add_address_event_count(x);
+                want_aec[ref::dump(model::to_mrec_key(ga))]++;
+                what = "add AddressEventCount";
+                break;
+            }
+        }
+        full_before_model = want_qr.size() >= maxi || want_mm.size() >= maxi || want_aec.size() >= maxi;
+        if (ret != full_before_model)
+            cx.violation("C12", "C12/I08/direct-add-return-value", what + " returned " + (ret ? "true" : "false") + " (block full) with arrays " + std::to_string(want_qr.size()) + "/" + std::to_string(want_aec.size()) + "/" + std::to_string(want_mm.size()) + ", max_block_items " + std::to_string(maxi));
+        cx.log.ev("DIRECT " + what);
+        if (cx.describe) cx.description += what + "; ";
+        // the block's earliest time is not later than any time stored so far (it need not be their minimum: a block whose first
+        // record is untimed keeps the epoch, which still gives non-negative offsets)
+        const CDNS::Timestamp& be = blk.m_block_preamble.earliest_time;
+        if (have_time && (be.m_secs > earliest.m_secs || (be.m_secs == earliest.m_secs && be.m_ticks > earliest.m_ticks)))
+            cx.violation("C17", "C17/I20/earliest-time-later-than-a-record/direct-block", "after '" + what + "' the block's earliest time is " + model::ts_str(be) + ", the earliest record time " + model::ts_str(earliest));
+    }
+    if (blk.get_item_count() > 0) {
+        {
+            CDNS::FilePreamble fp(sets);
+            CDNS::CdnsExporter ex(fp, std::string("/sim/c17-direct"), CDNS::CborOutputCompression::NO_COMPRESSION);
+            ex.write_block(blk);
+        }
+        std::string bytes = F.exists("/sim/c17-direct") ? F.get("/sim/c17-direct") : std::string();
+        try {
+            ref::RFile rf = ref::Interp::file(bytes);
+            if (rf.blocks.size() != 1) cx.violation("C02", "C02/I02/direct-block-count", std::to_string(rf.blocks.size()) + " blocks");
+            else {
+                const ref::RBlock& b = rf.blocks[0];
+                if (b.max_offset >> 63) cx.violation("C17", "C17/I20/offset-not-below-2^63/direct-block", "stored offset " + std::to_string(b.max_offset));
+                bool same = b.qr.size() == want_qr.size() && b.mm.size() == want_mm.size();
+                std::string d;
+                for (size_t i = 0; same && i < b.qr.size(); i++) if (b.qr[i] != want_qr[i]) { same = false; d = "qr " + std::to_string(i) + ": " + ref::first_diff(want_qr[i], b.qr[i]); }
+                for (size_t i = 0; same && i < b.mm.size(); i++) if (b.mm[i] != want_mm[i]) { same = false; d = "mm " + std::to_string(i) + ": " + ref::first_diff(want_mm[i], b.mm[i]); }
+                if (!same) cx.violation("C17", "C17/I20/record-time-not-recovered/direct-block", "independent reader: " + (d.empty() ? std::string("record counts differ") : d));
+                std::map<std::string, uint64_t> got;
+                for (auto& a : b.aec) got[ref::dump(a.first)] += a.second;
+                if (got != want_aec) cx.violation("C12", "C12/I10/direct-block-address-events", "address-event counts of a directly built block differ from the calls made");
+            }
+            model::VFile vf = model::view_bytes(bytes);
+            if (!vf.ended_clean || vf.blocks.size() != 1) cx.violation("C01", "C01/I01/reader-rejects-own-output/direct-block", vf.error_type + ": " + vf.error);
+            else {
+                const model::VBlock& b = vf.blocks[0];
+                bool same = b.qr.size() == want_qr.size() && b.mm.size() == want_mm.size();
+                std::string d;
+                for (size_t i = 0; same && i < b.qr.size(); i++) if (b.qr[i] != want_qr[i]) { same = false; d = "qr " + std::to_string(i) + ": " + ref::first_diff(want_qr[i], b.qr[i]); }
+                for (size_t i = 0; same && i < b.mm.size(); i++) if (b.mm[i] != want_mm[i]) { same = false; d = "mm " + std::to_string(i) + ": " + ref::first_diff(want_mm[i], b.mm[i]); }
+                if (!same) cx.violation("C17", "C17/I20/record-time-not-recovered(reader)/direct-block", "library reader: " + (d.empty() ? std::string("record counts differ") : d));
+                else cx.ctr->add("direct_blocks_read_back");
+            }
+        } catch (std::exception& e) {
+            cx.violation("C02", "C02/I02/direct-block-invalid", e.what());
+        }
+        cx.nontrivial = true;
+    }
+    cx.state_key = "direct" + std::to_string(want_qr.size() > 2 ? 2 : want_qr.size()) + std::to_string(want_mm.size() > 2 ? 2 : want_mm.size()) + (have_time ? "t" : "u") + ",";
+    F.reset();
+    F.log = nullptr;
+}
+
 }  // namespace
 
 void sim::engine_objects(RunCtx& cx) {
-    if (cx.prop == "C17") run_timestamps(cx);
+    if (cx.prop == "C17") { if (mix_str(cx.seed, "c17-mode") % 3 == 0) run_direct_blocks(cx); else run_timestamps(cx); }
     else if (cx.prop == "C11") run_tables(cx);
     else if (cx.prop == "C04") run_copied_hints(cx);
     else if (cx.prop == "C09") run_preamble_objects(cx);
